@@ -206,9 +206,9 @@ def run(ctx):
         plan.append(("locks2", dict(maxn=5, slicefrom=5, slices=16, slice=ctx.seed % 16), dict(maxn=12, nsub=8), 3))
         plan.append((second, dict(maxn=4, slicefrom=4, slices=6, slice=ctx.seed % 6), dict(maxn=15, nsub=8), 2))
     else:
-        plan.append(("locks2", dict(maxn=6, slicefrom=6, slices=6, slice=ctx.seed % 6), dict(maxn=15, nsub=16), 60))
+        plan.append(("locks2", dict(maxn=6, slicefrom=6, slices=6, slice=ctx.seed % 6), dict(maxn=15, nsub=16), 12))
         for a in names[1:]:
-            plan.append((a, dict(maxn=5, slicefrom=5, slices=3, slice=ctx.seed % 3), dict(maxn=15, nsub=16), 40))
+            plan.append((a, dict(maxn=5, slicefrom=5, slices=3, slice=ctx.seed % 3), dict(maxn=15, nsub=16), 8))
     batches = []
     ctx.cov["alphabets"] = {}
     jobs = []
@@ -239,7 +239,7 @@ def run(ctx):
             if not cases:
                 raise vlib.InfraError("UnfoldingGen printed no case for alphabet " + alpha)
         else:
-            ctx.cov["alphabets"][alpha]["sampled"] = {"behaviours": nsim, "max_events": p["maxn"], "sheets": len(cases),
+            ctx.cov["alphabets"][alpha]["sampled"] = {"simulate_num": nsim, "max_events": p["maxn"], "sheets": len(cases),
                                                       "wall_s": round(r.wall, 1)}
         tag = "%s_%s" % (kind, alpha)
         for j in range(0, len(cases), 400):
